@@ -972,7 +972,7 @@ def shard(pid, tier, seed, idx, n_cases):
 
 def run(ctx):
     pid = "C07"
-    lean.check_obligations(ctx, "Spydr/IR", ["Spydr.IR.Props.C07", "Spydr.IR.Props.C07Elem", "Spydr.IR.Props.C07Struct", "Spydr.IR.Props.C07Detached"], ["drv_ir"], "Spydr/IR/AuditClone.lean", META[pid]["theorems"])
+    lean.check_obligations(ctx, "Spydr/IR", ["Spydr.IR.Props.C07", "Spydr.IR.Props.C07Elem", "Spydr.IR.Props.C07Struct", "Spydr.IR.Props.C07Detached", "Spydr.IR.Props.C07Bundle"], ["drv_ir"], "Spydr/IR/AuditClone.lean", META[pid]["theorems"])
     ctx.rule = ("generated netlists (hierarchy, cross-library references, top standalone / also a child / absent, named and unnamed elements, user data, orphan "
                 "instances); even cases: netlist.clone() - identical canonical value, identity-disjointness of everything reachable, self-containedness / "
                 "well-formedness of the copy, name lookups on the copy, source untouched, edits+uniquify+flatten on either side invisible in the other; odd cases: "
